@@ -107,6 +107,16 @@ func famRegs3(r *rng) []string {
 		fmt.Sprintf("func cd(n){ for n > 0 { n-- ; for j = n { if j == 2 { return [n, j] } } }; n }; println(cd(%d), cd(1))", 3+r.intn(4)),
 		fmt.Sprintf("func gcd(a, b){ for b != 0 { t = b; b = a %% b; a = t }; a }; println(gcd(%d, %d), gcd(17, 5))", 12+r.intn(40), 4+r.intn(20)),
 		fmt.Sprintf("func dg(n){ r = []; for i = n { for j = i { for k = j { r = r + [i * 100 + j * 10 + k] } } }; r }; println(dg(%d))", 2+r.intn(4))))
+	// "any loop variable name": names that are not read from the variable (repo fix d182398: self, info and the names of
+	// extension functions were kept in registers, so the name meant the integer only with registers on)
+	res = append(res, pickS(r,
+		"for self = 3 { print(sv(catch(self))) }; println()",
+		"func rs(self, max){ [sv(catch(self + 1)), 1] }; println(sv(catch(rs(1, 2))))",
+		"rl = max => max + 1; println(sv(catch(rl(3))))",
+		"for min = 2 { print(1) }; println(sv(catch(min(3, 4))))",
+		"func ri(int){ int }; println(sv(catch(ri(3))), sv(catch(int(2.5))))",
+		"func rn(a, self, b){ for j = b { a = a + j }; [a, b] }; println(rn(1, 2, 3))",
+		"for abs = 2 { for max = 2 { print(1) } }; println(sv(catch(abs(-2))))"))
 	// a long session of top-level loops: every exit, more than 8 in a row, one input each or all in one
 	nl := 20 + r.intn(31)
 	var loops []string
